@@ -1219,3 +1219,23 @@ func ExportedDoc(where string, e interface{}) *Doc {
 	}
 	return nil
 }
+
+// Tagged has a field for every form of json tag (Bridge!TagAccess).
+type Tagged struct {
+	Plain     int
+	Named     int `json:"n"`
+	Omit      int `json:"count,omitempty"`
+	Str       int `json:"s,string"`
+	KeepName  int `json:",omitempty"`
+	Dash      int `json:"-"`
+	DashComma int `json:"-,"`
+}
+
+// TaggedForm lists the field values in declaration order.
+func TaggedForm(t Tagged) []any {
+	out := []any{}
+	for _, v := range []int{t.Plain, t.Named, t.Omit, t.Str, t.KeepName, t.Dash, t.DashComma} {
+		out = append(out, ZOfInt64(int64(v)))
+	}
+	return out
+}
